@@ -86,6 +86,17 @@ def run(e: Engine, rep: Report):
              'preceded by one complete CRLF or by nothing: no other value '
              'is ever assigned to DataSender.end_marker')
     r59(e, rep)
+    rep.rule('R5.15', 'the sender puts the content on the wire as it is, '
+             'dots added and nothing else: no method of DataSender passes '
+             'message bytes through a rewriting operation (table '
+             'CONTENT_REWRITERS: replace / sub / translate / strip ...)')
+    rep.tables.add('c05.CONTENT_REWRITERS')
+    r515(e, rep)
+    rep.rule('R5.14', '= C09-G11: a command line handed out by recv_line has '
+             'been removed from recv_buffer (the DATA reader starts from '
+             'what recv_buffer holds)')
+    from . import c09 as _c09g
+    _c09g.g11(e, rep, 'R5.14')
     rep.rule('R5.11', 'what decides the end marker is gathered over all '
              'parts: self.parts is only iterated, never read at a fixed '
              'position (an empty or one-byte last part says nothing about '
@@ -868,3 +879,36 @@ def r513(e: Engine, rep: Report):
                       reason='inside the loop over terminated lines')
     if n < 1:
         rep.error('anchor vanished: handle_finished_line call sites')
+
+
+# ------------------------------------------------------------------- R5.15
+CONTENT_REWRITERS = {'replace', 'sub', 'subn', 'translate', 'strip',
+                     'rstrip', 'lstrip', 'lower', 'upper', 'expandtabs',
+                     'splitlines', 'decode', 'encode', 'removeprefix',
+                     'removesuffix', 'normalize'}
+
+
+def r515(e: Engine, rep: Report):
+    c = e.p.cls(SENDER)
+    n = 0
+    for mname, m in sorted(c.methods.items()):
+        n += 1
+        rep.functions.add(m.qname)
+        for x in ast.walk(m.node):
+            if isinstance(x, ast.Call) and \
+                    isinstance(x.func, ast.Attribute) and \
+                    x.func.attr in CONTENT_REWRITERS:
+                rep.evaluations += 1
+                rep.bad('R5.15', m.qname, '`%s`' % ' '.join(
+                    ast.unparse(x).split())[:50],
+                    'DataSender passes message bytes through %s(): what '
+                    'the receiving side assembles is no longer the content '
+                    'that was given to the sender (bare LF, white space, '
+                    'case ... are content, not framing)' % x.func.attr,
+                    loc=m.loc(x))
+    rep.evaluations += 1
+    if n < 3:
+        rep.error('anchor vanished: methods of DataSender (%d < 3)' % n)
+    else:
+        rep.ok('R5.15', SENDER, 'no rewriting operation on the content',
+               reason='%d methods scanned' % n, nontrivial=False)
